@@ -204,6 +204,8 @@ def run_tunnel(tag, cfg, seed, plan):
     sim.fdmode = cfg.get("fdmode")
     if cfg.get("jitter"):
         k.sched_jitter = tuple(cfg["jitter"])
+    if cfg.get("snaps"):
+        k.keep_snaps = True          # users[] rows and the client's transfer state are kept in every select() event
     if cfg.get("domain"):
         sim.domain = cfg["domain"]
     extra = []
